@@ -26,7 +26,11 @@ func init() { registry["C02"] = c02Oracle }
 // fatal error that recover() cannot catch, so repetition inputs run here, with the
 // goroutine stack limited to 16 MB (per-byte recursion needs > 32 MB at 1 MB input).
 func stackChild() {
-	debug.SetMaxStack(16 << 20)
+	mb, _ := strconv.Atoi(os.Getenv("VERIF_STACK_MB"))
+	if mb <= 0 {
+		mb = 16
+	}
+	debug.SetMaxStack(mb << 20)
 	unit, _ := hex.DecodeString(os.Getenv("VERIF_UNIT"))
 	n, _ := strconv.Atoi(os.Getenv("VERIF_COUNT"))
 	s := strings.Repeat(string(unit), n/max(1, len(unit)))
@@ -36,9 +40,9 @@ func stackChild() {
 	os.Exit(0)
 }
 
-func runStackChild(unit string, n int) (ok bool, out string) {
+func runStackChild(unit string, n int, stackMB int) (ok bool, out string) {
 	cmd := exec.Command(os.Args[0], "-test.run", "^$")
-	cmd.Env = append(os.Environ(), "VERIF_CHILD=stack", "VERIF_UNIT="+hex.EncodeToString([]byte(unit)), "VERIF_COUNT="+strconv.Itoa(n))
+	cmd.Env = append(os.Environ(), "VERIF_CHILD=stack", "VERIF_UNIT="+hex.EncodeToString([]byte(unit)), "VERIF_COUNT="+strconv.Itoa(n), "VERIF_STACK_MB="+strconv.Itoa(stackMB))
 	var buf bytes.Buffer
 	cmd.Stdout, cmd.Stderr = &buf, &buf
 	done := make(chan error, 1)
@@ -65,7 +69,7 @@ func runStackChild(unit string, n int) (ok bool, out string) {
 func c02Oracle(c ev.Case) Res {
 	switch c.Kind {
 	case "stack":
-		ok, msg := runStackChild(c.In, c.N)
+		ok, msg := runStackChild(c.In, c.N, 16)
 		if !ok {
 			return fail("unit %q repeated to %d bytes: %s", c.In, c.N, msg)
 		}
@@ -94,40 +98,6 @@ func TestC02(t *testing.T) {
 	c.rec.Assume = []string{"termination decided by a watchdog, not by a termination argument", "stack exhaustion detected through debug.SetMaxStack(16 MB) in a child process: per-byte recursion needs > 32 MB at 1 MB input"}
 	defer c.Finish()
 	judge := func(w *Worker, s string) { w.Judge(c02Case(s)) }
-
-	L := pick(4, 5)
-	p := c.rec.NewPart("bytes_exhaustive", fmt.Sprintf("every string of length 0..%d over the %d-symbol HTML alphabet", L, len(gen.AlphaHTML)), false, true, "")
-	c.EnumSeq(p, gen.AlphaHTML, "", 0, L, judge)
-	Lc := pick(6, 7)
-	p = c.rec.NewPart("bytes_core_exhaustive", fmt.Sprintf("every string of length %d..%d over the %d-symbol core alphabet", L+1, Lc, len(gen.CoreHTML)), false, true, "")
-	c.EnumSeq(p, gen.CoreHTML, "", L+1, Lc, judge)
-	p = c.rec.NewPart("atoms_exhaustive", "every concatenation of 1..3 markup atoms", false, true, "")
-	c.EnumSeq(p, htmlAtoms, "", 1, 3, judge)
-
-	var tr []string
-	tr = append(tr, htmlTruncationInputs()...)
-	long := strings.Repeat("a", 45)
-	for _, h := range htmlHostile {
-		for _, ctx := range []string{"", "x", ">", "'>", "\">", "`>", " ", "a=", "a='", "<a ", "-->", "</b>", "<a b='c' "} {
-			tr = append(tr, ctx+h, ctx+h+long, ctx+long+h, ctx+h+" ", ctx+h+h, ctx+h+"]", ctx+h+"%", ctx+h+"-")
-		}
-	}
-	p = c.rec.NewPart("truncations", "every prefix of every markup construct and corpus input; hostile construct openers at end of input behind 13 contexts", false, false, "")
-	c.ParRange(p, int64(len(tr)), func(w *Worker, i int64) { judge(w, tr[i]) })
-
-	hb := htmlBoundaryInputs()
-	p = c.rec.NewPart("boundary_inputs", "length-, count- and code-point boundary inputs (see C07); case-folding code points are NOT excluded here", false, true, "")
-	c.ParRange(p, int64(len(hb)), func(w *Worker, i int64) { judge(w, hb[i]) })
-	// comment bodies over case-folding code points and marker letters, exhaustive
-	p = c.rec.NewPart("source_dictionary", "construct openers x sequences of 1..5 symbols around each word that occurs as a literal in the XSS source files (see C07)", false, true, "")
-	c.htmlDictInputs(p, judge)
-	p = c.rec.NewPart("unicode_fold_comments", "5 comment openers x every body of length 0..5 over {U+0131, U+017F, U+1FBE, a, [, i}", false, true, "")
-	c.EnumSeq(p, []string{"\xc4\xb1", "\xc5\xbf", "\xe1\xbe\xbe", "a", "[", "i"}, "", 0, 5, func(w *Worker, s string) {
-		for _, op := range []string{"<!--", "<!", "<?", "<%", "</ "} {
-			judge(w, op+s)
-			judge(w, op+s+">")
-		}
-	})
 
 	// stack probes: every single symbol and state-changing pairs repeated to 1 MB
 	var probes []ev.Case
@@ -178,8 +148,42 @@ func TestC02(t *testing.T) {
 	for _, u := range pairs {
 		probes = append(probes, ev.Case{Kind: "stack", In: u, N: 1 << 20})
 	}
-	p = c.rec.NewPart("stack_probes", fmt.Sprintf("%d repetition inputs (single symbols and pairs over the HTML alphabet, closed and empty constructs, every pair of markup atoms) at 1 MB in child processes with a 16 MB stack limit", len(probes)), false, true, "")
+	p := c.rec.NewPart("stack_probes", fmt.Sprintf("%d repetition inputs (single symbols and pairs over the HTML alphabet, closed and empty constructs, every pair of markup atoms) at 1 MB in child processes with a 16 MB stack limit", len(probes)), false, true, "")
 	c.ParRange(p, int64(len(probes)), func(w *Worker, i int64) { w.JudgeSlow(probes[i]) })
+
+	L := pick(4, 5)
+	p = c.rec.NewPart("bytes_exhaustive", fmt.Sprintf("every string of length 0..%d over the %d-symbol HTML alphabet", L, len(gen.AlphaHTML)), false, true, "")
+	c.EnumSeq(p, gen.AlphaHTML, "", 0, L, judge)
+	Lc := pick(6, 7)
+	p = c.rec.NewPart("bytes_core_exhaustive", fmt.Sprintf("every string of length %d..%d over the %d-symbol core alphabet", L+1, Lc, len(gen.CoreHTML)), false, true, "")
+	c.EnumSeq(p, gen.CoreHTML, "", L+1, Lc, judge)
+	p = c.rec.NewPart("atoms_exhaustive", "every concatenation of 1..3 markup atoms", false, true, "")
+	c.EnumSeq(p, htmlAtoms, "", 1, 3, judge)
+
+	var tr []string
+	tr = append(tr, htmlTruncationInputs()...)
+	long := strings.Repeat("a", 45)
+	for _, h := range htmlHostile {
+		for _, ctx := range []string{"", "x", ">", "'>", "\">", "`>", " ", "a=", "a='", "<a ", "-->", "</b>", "<a b='c' "} {
+			tr = append(tr, ctx+h, ctx+h+long, ctx+long+h, ctx+h+" ", ctx+h+h, ctx+h+"]", ctx+h+"%", ctx+h+"-")
+		}
+	}
+	p = c.rec.NewPart("truncations", "every prefix of every markup construct and corpus input; hostile construct openers at end of input behind 13 contexts", false, false, "")
+	c.ParRange(p, int64(len(tr)), func(w *Worker, i int64) { judge(w, tr[i]) })
+
+	hb := htmlBoundaryInputs()
+	p = c.rec.NewPart("boundary_inputs", "length-, count- and code-point boundary inputs (see C07); case-folding code points are NOT excluded here", false, true, "")
+	c.ParRange(p, int64(len(hb)), func(w *Worker, i int64) { judge(w, hb[i]) })
+	// comment bodies over case-folding code points and marker letters, exhaustive
+	p = c.rec.NewPart("source_dictionary", "construct openers x sequences of 1..5 symbols around each word that occurs as a literal in the XSS source files (see C07)", false, true, "")
+	c.htmlDictInputs(p, judge)
+	p = c.rec.NewPart("unicode_fold_comments", "5 comment openers x every body of length 0..5 over {U+0131, U+017F, U+1FBE, a, [, i}", false, true, "")
+	c.EnumSeq(p, []string{"\xc4\xb1", "\xc5\xbf", "\xe1\xbe\xbe", "a", "[", "i"}, "", 0, 5, func(w *Worker, s string) {
+		for _, op := range []string{"<!--", "<!", "<?", "<%", "</ "} {
+			judge(w, op+s)
+			judge(w, op+s+">")
+		}
+	})
 
 	p = c.rec.NewPart("rapid_fragments", "rapid over the HTML fragment grammar", true, false, "")
 	g := gen.HTMLInput()
